@@ -1,5 +1,7 @@
 import CogentModel.Gen.C18Gaps
+import CogentModel.Gen.C18Pog
 import CogentModel.Proofs.C18Gen
+import CogentModel.Proofs.Progressive
 
 /-! # C18 — translation tie of the gap-dict helpers of `app/align.py`
 
@@ -73,5 +75,31 @@ theorem gen_gapsForInjection (other ref : Gaps) (seqlen : Int) :
 
 example : (C18Gaps.gapsForInjection [(2, 1)] [(1, 2), (5, 1)] 4).toOption = some [(2, 1), (1, 2), (4, 1)] := by decide
 example : (C18Gaps.gapsForInjection [] [(-3, 2)] 4).toOption = none := by decide
+
+/-! ## column completion of progressive alignment (`Gen/C18Pog.lean`, translator `c18_pog2lean.py`) -/
+
+/-- `pog_traceback` + `POGBuilder.add_skipped/add_aligned/get_pog`, sliced to `aligned_positions` and translated from the
+source, is the hand model `Progressive.pogTraceback` — for all child widths and ALL position lists (valid or malformed).
+Together with `pog_traceback_complete` / `progressive_alignment_sound` of `Props/C18.lean` this puts the completed
+position list of the real code under those theorems by translation, not only by the behavioural tie. -/
+theorem gen_pogTraceback (n1 n2 : Nat) (ap : List CogentModel.Progressive.Pos) :
+    C18Pog.pogTraceback n1 n2 ap = CogentModel.Progressive.pogTraceback n1 n2 ap :=
+  C18Gen.gen_pogTraceback n1 n2 ap
+
+example : C18Pog.pogTraceback 3 2 [(some 1, some 0)] = [(some 0, none), (some 1, some 0), (some 2, none), (none, some 1)] := by decide
+
+/-- the translated completion has every child column exactly once (the completeness theorem transported to the
+generated definition) -/
+theorem gen_pogTraceback_complete (n1 n2 : Nat) (ap : List CogentModel.Progressive.Pos)
+    (h : CogentModel.Progressive.apValid n1 n2 ap 0 0 = true) :
+    (C18Pog.pogTraceback n1 n2 ap).filterMap (·.1) = List.range n1 ∧
+    (C18Pog.pogTraceback n1 n2 ap).filterMap (·.2) = List.range n2 := by
+  rw [C18Gen.gen_pogTraceback]
+  have c := CogentModel.Progressive.pogTraceback_complete n1 n2 ap h
+  constructor
+  · rw [List.range_eq_range', ← c.1]; congr 1
+  · rw [List.range_eq_range', ← c.2]; congr 1
+
+example : CogentModel.Progressive.apValid 3 2 [(some 1, some 0)] 0 0 = true := by decide
 
 end CogentModel.C18G
